@@ -263,6 +263,7 @@ pub const FAMILIES: &[&str] = &[
     "uv-bh",
     "uv-b3",
     "saftvrmie",
+    "saftvrmie-crossassoc",
     "saftvrqmie",
     "fmt",
 ];
